@@ -418,8 +418,12 @@ func (c *caseCtx) gossip(cl, sv *propertydb.VerifC18Shard, id string) string {
 	if cd == nil && sd == nil {
 		return "-"
 	}
-	if cd != nil && sd != nil && cd.ID == sd.ID && cd.DeleteTime == sd.DeleteTime && proto.Equal(cd.Property, sd.Property) {
-		return "=" // equal leaf sha: the tree comparison never selects this leaf
+	// the Merkle leaf of an entity is built from the LAST document of the highest revision (repair.buildTree sorts by
+	// timestamp; observed with two documents of one id, see the M op): equal leaf sha = the tree comparison never
+	// selects this leaf
+	cleaf, sleaf := leafDoc(cl, id), leafDoc(sv, id)
+	if cleaf != nil && sleaf != nil && cleaf.ID == sleaf.ID && cleaf.DeleteTime == sleaf.DeleteTime && proto.Equal(cleaf.Property, sleaf.Property) {
+		return "="
 	}
 	trace := ""
 	var toClient []*propertyv1.PropertySyncWithFrom
@@ -449,6 +453,10 @@ func (c *caseCtx) gossip(cl, sv *propertydb.VerifC18Shard, id string) string {
 			if !updated && newer != nil && m.From != propertyv1.PropertySyncFromType_PROPERTY_SYNC_FROM_TYPE_MISSING {
 				su, back := sv.ServerSync(&propertyv1.PropertySync{Id: []byte(newer.ID), Property: newer.Property, DeleteTime: newer.DeleteTime}, group)
 				trace += "S" + drv.B01(su)
+				if !su && len(back) > 0 {
+					// both sides refuse each other's document: the same two messages would be repeated for ever
+					return trace + "~"
+				}
 				next = append(next, back...)
 			}
 		}
@@ -457,11 +465,26 @@ func (c *caseCtx) gossip(cl, sv *propertydb.VerifC18Shard, id string) string {
 	return trace
 }
 
+// leafDoc: the last document (search order) among those of the highest revision.
+func leafDoc(sh *propertydb.VerifC18Shard, id string) *propertydb.VerifC18Doc {
+	docs, err := sh.Docs(group, propName, id)
+	if err != nil {
+		return nil
+	}
+	var best *propertydb.VerifC18Doc
+	for _, d := range docs {
+		if best == nil || d.Timestamp >= best.Timestamp {
+			best = d
+		}
+	}
+	return best
+}
+
 func (c *caseCtx) latestState(i int) string {
 	var ks []string
 	for _, k := range c.sortedKeys() {
-		d, err := c.h.reps[i].shard.Latest(group, propName, c.prefix+k)
-		if err != nil || d == nil {
+		d := leafDoc(c.h.reps[i].shard, c.prefix+k)
+		if d == nil {
 			continue
 		}
 		b, _ := proto.MarshalOptions{Deterministic: true}.Marshal(d.Property)
